@@ -27,9 +27,10 @@ def soft(op, impl, model):
 def run(ctx):
     ctx.level = "proof"
     ctx.rule = ("dc_packets: round trips of every packet kind with field values at the varint length-class boundaries and payload sizes "
-                "0/1/15/16/17/1200/8900/65000, both cipher suites; every byte position x {bit0, bit7, bit4, 0x00, 0xff} (quick: + 12 random "
-                "masks; thorough: all 255 xor masks) on valid packets of every kind incl. probes and retransmissions; single/multi byte "
-                "mutations; random and structured byte strings through all 8 decoders; truncated MAC tags. dc_map: real Map in 7 "
+                "0/1/15/16/17/1200/8900/65000, both cipher suites; every byte position x {bit0, bit7, bit4, 0x00, 0xff} and every single bit "
+                "of the tag byte (quick: + 12 random masks; thorough: all 255 xor masks) on valid packets of every kind incl. probes and "
+                "retransmissions; single/multi byte mutations; 10^4 (thorough 4*10^5) random and structured byte strings through all 8 "
+                "decoders; truncated MAC tags. dc_map: real Map in 7 "
                 "populations reached by production handshake callbacks, genuine/forged/cross-keyed/alien/raw datagrams through both "
                 "production entry points, one segment aged past the 10 s eviction guard. A case is non-trivial when the implementation "
                 "produced a value (decoded packet / handled datagram) and distinct when its op line differs")
